@@ -540,6 +540,125 @@ func needsBoth(f *ast.File, known map[string]int) string {
 	return fmt.Sprintf("(* %s *)\nDefinition needsOwnerAndUserPassword (cmd : Z) : bool :=\n  %s.\n", pos(fd), gallinaOr(modes))
 }
 
+// credentialsGuard: handlePermissions must have exactly the shape
+//
+//	ok, err := validatePermissions(ctx)
+//	if err != nil { return ... }
+//	if !ok { return ...errInvalidPermissions... }
+//	if GUARD { return nil }
+//	if !hasNeededPermissions(ctx.Cmd, ctx.E) { return ErrPermissionDenied }
+//	return nil
+//
+// where GUARD is built from ctx.OwnerPW == "" / ctx.UserPW == "" (or != "") with && || ! and
+// parentheses ONLY: the passwords are compared raw. Any call (strings.TrimSpace, len, ...) or other
+// operand is an unknown shape and fails.
+func credentialsGuard(f *ast.File) string {
+	fd := findFunc(f, "handlePermissions")
+	ps := paramNames(fd)
+	if len(ps) != 1 || ps[0] != "ctx" {
+		die("%s: handlePermissions: single parameter ctx expected", pos(fd))
+	}
+	b := fd.Body.List
+	if len(b) != 6 {
+		die("%s: handlePermissions: body has %d statements, the understood shape has 6", pos(fd), len(b))
+	}
+	isNil := func(e ast.Expr) bool { return isIdent(e, "nil") }
+	plainIf := func(st ast.Stmt) *ast.IfStmt {
+		is, ok := st.(*ast.IfStmt)
+		if !ok || is.Init != nil || is.Else != nil || len(is.Body.List) != 1 {
+			die("%s: handlePermissions: plain `if c { return x }` expected", pos(st))
+		}
+		if r, ok := is.Body.List[0].(*ast.ReturnStmt); !ok || len(r.Results) != 1 {
+			die("%s: handlePermissions: `return x` expected", pos(is.Body))
+		}
+		return is
+	}
+	ret := func(is *ast.IfStmt) ast.Expr { return is.Body.List[0].(*ast.ReturnStmt).Results[0] }
+	// 0: ok, err := validatePermissions(ctx)
+	as, ok := b[0].(*ast.AssignStmt)
+	if !ok || as.Tok != token.DEFINE || len(as.Lhs) != 2 || len(as.Rhs) != 1 || !isIdent(as.Lhs[0], "ok") || !isIdent(as.Lhs[1], "err") {
+		die("%s: handlePermissions: expected `ok, err := validatePermissions(ctx)`", pos(b[0]))
+	}
+	if c, ok := as.Rhs[0].(*ast.CallExpr); !ok || !isIdent(c.Fun, "validatePermissions") || len(c.Args) != 1 || !isIdent(c.Args[0], "ctx") {
+		die("%s: handlePermissions: expected `ok, err := validatePermissions(ctx)`", pos(b[0]))
+	}
+	// 1: if err != nil { return ... }
+	i1 := plainIf(b[1])
+	if c, ok := i1.Cond.(*ast.BinaryExpr); !ok || c.Op != token.NEQ || !isIdent(c.X, "err") || !isNil(c.Y) || isNil(ret(i1)) {
+		die("%s: handlePermissions: expected `if err != nil { return <error> }`", pos(i1))
+	}
+	// 2: if !ok { return ...errInvalidPermissions... }
+	i2 := plainIf(b[2])
+	if c, ok := i2.Cond.(*ast.UnaryExpr); !ok || c.Op != token.NOT || !isIdent(c.X, "ok") || !mentions(ret(i2), "errInvalidPermissions") {
+		die("%s: handlePermissions: expected `if !ok { return ...errInvalidPermissions }`", pos(i2))
+	}
+	// 3: if GUARD { return nil }
+	i3 := plainIf(b[3])
+	if !isNil(ret(i3)) {
+		die("%s: handlePermissions: the credentials guard must `return nil`", pos(i3))
+	}
+	// 4: if !hasNeededPermissions(ctx.Cmd, ctx.E) { return ErrPermissionDenied }
+	i4 := plainIf(b[4])
+	isCtxSel := func(e ast.Expr, field string) bool {
+		s, ok := e.(*ast.SelectorExpr)
+		return ok && isIdent(s.X, "ctx") && s.Sel.Name == field
+	}
+	okShape := false
+	if n, ok := i4.Cond.(*ast.UnaryExpr); ok && n.Op == token.NOT {
+		if c, ok := n.X.(*ast.CallExpr); ok && isIdent(c.Fun, "hasNeededPermissions") && len(c.Args) == 2 && isCtxSel(c.Args[0], "Cmd") && isCtxSel(c.Args[1], "E") {
+			okShape = isIdent(ret(i4), "ErrPermissionDenied")
+		}
+	}
+	if !okShape {
+		die("%s: handlePermissions: expected `if !hasNeededPermissions(ctx.Cmd, ctx.E) { return ErrPermissionDenied }`", pos(i4))
+	}
+	// 5: return nil
+	if r, ok := b[5].(*ast.ReturnStmt); !ok || len(r.Results) != 1 || !isNil(r.Results[0]) {
+		die("%s: handlePermissions: final `return nil` expected", pos(b[5]))
+	}
+	var tr func(e ast.Expr) string
+	tr = func(e ast.Expr) string {
+		switch x := e.(type) {
+		case *ast.ParenExpr:
+			return "(" + tr(x.X) + ")"
+		case *ast.UnaryExpr:
+			if x.Op == token.NOT {
+				return "negb (" + tr(x.X) + ")"
+			}
+		case *ast.BinaryExpr:
+			switch x.Op {
+			case token.LAND:
+				return "(" + tr(x.X) + " && " + tr(x.Y) + ")"
+			case token.LOR:
+				return "(" + tr(x.X) + " || " + tr(x.Y) + ")"
+			case token.EQL, token.NEQ:
+				var v string
+				switch {
+				case isCtxSel(x.X, "OwnerPW"):
+					v = "opw"
+				case isCtxSel(x.X, "UserPW"):
+					v = "upw"
+				default:
+					die("%s: handlePermissions guard: left operand must be ctx.OwnerPW or ctx.UserPW (raw string)", pos(x.X))
+				}
+				if l, ok := x.Y.(*ast.BasicLit); !ok || l.Kind != token.STRING || l.Value != `""` {
+					die("%s: handlePermissions guard: right operand must be the literal \"\"", pos(x.Y))
+				}
+				if x.Op == token.EQL {
+					return "pw_empty " + v
+				}
+				return "negb (pw_empty " + v + ")"
+			}
+		}
+		die("%s: handlePermissions guard: expression not understood (only raw ctx.OwnerPW/ctx.UserPW ==/!= \"\" with && || !)", pos(e))
+		return ""
+	}
+	g := tr(i3.Cond)
+	return fmt.Sprintf("(* a Go string is the list of its bytes; s == \"\" *)\nDefinition pw_empty (s : list N) : bool := match s with [] => true | _ :: _ => false end.\n\n"+
+		"(* %s (handlePermissions: `if <guard> { return nil }` -- no credentials supplied, the permission test is skipped) *)\n"+
+		"Definition noCredentialsSupplied (opw upw : list N) : bool :=\n  %s.\n", pos(i3), g)
+}
+
 func main() {
 	out := flag.String("out", "", "output .v file")
 	config := flag.String("config", "", "path of pkg/pdfcpu/model/configuration.go")
@@ -564,10 +683,11 @@ func main() {
 	rf := parse(*read)
 	nb := needsBoth(rf, known)
 	re := rejectsEncrypted(rf, known)
+	cg := credentialsGuard(rf)
 
 	var sb strings.Builder
 	sb.WriteString("(* GENERATED by /verif/go/cmd/genc26 from pkg/pdfcpu/model/configuration.go, pkg/pdfcpu/crypto.go and\n   pkg/pdfcpu/read.go on every run of ./check C26. Do not edit. *)\n")
-	sb.WriteString("From Coq Require Import ZArith List Bool.\nImport ListNotations.\nOpen Scope Z_scope.\n\n")
+	sb.WriteString("From Coq Require Import ZArith NArith List Bool.\nImport ListNotations.\nOpen Scope Z_scope.\n\n")
 	sb.WriteString("(* model.CommandMode constants (iota order) *)\n")
 	for i, n := range names {
 		fmt.Fprintf(&sb, "Definition CM_%s : Z := %d.\n", n, i)
@@ -595,7 +715,7 @@ func main() {
 	sb.WriteString("].\n\n")
 	sb.WriteString("(* Go map lookup `p, ok := perm[mode]` (keys are unique: checked by the generator and by the Go compiler) *)\n")
 	sb.WriteString("Fixpoint perm_lookup (l : list (Z * (Z * Z))) (mode : Z) : option (Z * Z) :=\n  match l with\n  | [] => None\n  | (k, v) :: tl => if (k =? mode) then Some v else perm_lookup tl mode\n  end.\n\n")
-	sb.WriteString(mE + "\n" + mM + "\n" + nb + "\n" + re)
+	sb.WriteString(mE + "\n" + mM + "\n" + nb + "\n" + re + "\n" + cg)
 	if err := os.WriteFile(*out, []byte(sb.String()), 0o644); err != nil {
 		die("%v", err)
 	}
